@@ -1,16 +1,123 @@
 """C14 - start solution is an optimum of the per-type covering circulation.
 
-Optimality over all circulations of an input-dependent network is not statically decidable.
-Decided: the wiring conditions without which the network is not the documented one."""
+Optimality over all circulations of an input-dependent network is not statically decidable and is
+NOT claimed.  Decided: the wiring conditions without which the network is not the documented one."""
 from ..rulelib import *
-from . import ties
+from . import flownet, ties
 
-NOTE = ("Static wiring checks of the min-cost-flow construction (dependence slices over MIR of "
-        "solve_for_vehicle_type): arc sources, bounds and costs use the documented quantities; tie-consistency "
-        "recogniser for Network::predecessors/successors; flow decoding is driven by positive in-edge flow. "
-        "Optimality itself is NOT decided.")
+NOTE = ("Static wiring checks of the min-cost-flow construction (MIR of solve_for_vehicle_type): role classification of the "
+        "four edge constructions, provenance of bounds and costs, connection arcs inside the loop over "
+        "Network::predecessors, label/closure mapping of network_simplex, tie-consistent predecessor/successor "
+        "enumeration, flow decoding driven by the flow amount. Optimality itself is NOT decided.")
+
+COSTS = flownet.COSTS
+SFVT = flownet.SFVT
+MCF = "solver::min_cost_flow_solver::MinCostFlowSolver"
+
+
+def decoding(ctx, fd):
+    """R4: the number of tours continued/created over an in-edge is its flow amount"""
+    o = ctx.ob("R4.decoding-uses-flow-amount", "T12", SFVT,
+               "every unit of flow on an in-edge is decoded (the flow amount is used as a count, not only tested for zero)")
+    uses = []   # (closure key, instr, kind)
+    for k in ctx.prog.family(SFVT):
+        f2 = ctx.fd(k)
+        if not f2.body.is_closure:
+            continue
+        # locals holding flow[..].1 : assign from a place with tuple field 1 whose base derives from an Index on the flow vector
+        flow_vals = set()
+        for ins in f2.body.instrs():
+            if ins.kind == "assign" and ins.ops:
+                for op in ins.ops:
+                    if op.place is not None and any(p["k"] == "field" and p.get("tuple") and p["i"] == 1 for p in op.place.proj):
+                        at = f2.slice(seed_locals=[op.place.local], control=False)["atoms"]
+                        if any(a.startswith("capture:") for a in at) and has_method(at, "core::ops::index::Index::index"):
+                            if ins.rv_kind() == "use":
+                                flow_vals.add(ins.place.local)
+                            uses.append((k, ins, "cmp" if ins.rv_kind() == "binop" and ins.rv["op"] in ("Eq", "Ne", "Gt", "Lt", "Ge", "Le") else
+                                         ("count" if ins.rv_kind() in ("cast", "use") else ins.rv_kind())))
+        # forward uses of copied flow values
+        changed = True
+        while changed:
+            changed = False
+            for ins in f2.body.instrs():
+                if ins.kind == "assign" and ins.rv_kind() in ("use", "cast") and ins.ops and ins.ops[0].place is not None \
+                        and ins.ops[0].place.is_local and ins.ops[0].place.local in flow_vals and ins.place.local not in flow_vals:
+                    flow_vals.add(ins.place.local)
+                    changed = True
+        for ins in f2.body.instrs():
+            if ins.kind == "assign" and ins.rv_kind() == "binop" and any(op.place is not None and op.place.is_local and op.place.local in flow_vals for op in ins.ops):
+                uses.append((k, ins, "cmp" if ins.rv["op"] in ("Eq", "Ne", "Gt", "Lt", "Ge", "Le") else "arith"))
+            if ins.kind == "call" and any(op.place is not None and op.place.is_local and op.place.local in flow_vals for op in ins.args):
+                uses.append((k, ins, "count-arg:%s" % (ins.callee or "?").split("::")[-1]))
+    kinds = {u[2] for u in uses}
+    counts = [u for u in uses if u[2].startswith("count-arg")]
+    if not uses:
+        ctx.undecided(o, "no read of the flow amount found in the decoding closures")
+    elif counts:
+        ctx.ok(o, "flow amount is passed as a count to %s" % ", ".join(sorted({u[2][10:] for u in counts})))
+    elif kinds <= {"cmp", "count", "use", "cast"} and "cmp" in kinds:
+        ctx.bad(o, "the flow amount on an in-edge is only compared (with zero) and never used as a count: an edge carrying "
+                   "several units is decoded into a single tour", loc=uses[0][1].line())
+    else:
+        ctx.undecided(o, "uses of the flow amount not recognised: %s" % sorted(kinds))
+    must_depend(ctx, "R4.decoding-order", "T1", SFVT, "ret", [call(N("nodes_of_vehicle_type_sorted_by_start")), call(N("get_start_depot_node"))],
+                "tours are decoded in chronological order of the type's nodes and start at the start-depot node of the depot edge")
 
 
 def rules(ctx):
     ties.range_bound_rule(ctx, "R3.predecessors-keep-ties", N("predecessors"), "pred")
     ties.range_bound_rule(ctx, "R3.successors-keep-ties", N("successors"), "succ")
+    fd, edges = flownet.edge_sites(ctx)
+    o = ctx.ob("R1.edge-sites", "T8", SFVT, "the four EdgeLabel construction sites (trip, maintenance, connection, depot) are found")
+    roles = sorted(str(e.role) for e in edges)
+    ctx.decide(o, roles == ["connection", "depot", "maintenance", "trip"], "roles: %s" % roles, "edge constructions found: %s" % roles)
+    flownet.need(ctx, "R1.connection-cost", edges, "connection", "cost",
+                 [call(N("dead_head_time_between")), field(COSTS, "dead_head_trip"), call(N("idle_time_between")), field(COSTS, "idle")],
+                 "connection arcs cost dead-head time and idle time at their rates")
+    flownet.need(ctx, "R1.trip-cost", edges, "trip", "cost", [call(ND("duration")), field(COSTS, "service_trip")],
+                 "trip arcs cost their duration at the service rate")
+    flownet.need(ctx, "R1.maintenance-cost", edges, "maintenance", "cost", [call(ND("duration")), field(COSTS, "maintenance")],
+                 "maintenance arcs cost their duration at the maintenance rate")
+    flownet.need(ctx, "R1.depot-cost", edges, "depot", "cost", [call(N("planning_days")), field(COSTS, "staff"), field(COSTS, "service_trip")],
+                 "depot arcs carry the spawning cost (costliest rate x 3 planning days x total lower bound)")
+    o, e = flownet.role(ctx, "R1.spawning-cost-scales-with-demand", edges, "depot", "the spawning cost scales with the total lower bound")
+    if e is not None:
+        at = e.fields["cost"][1]
+        ctx.decide(o, call(N("number_of_vehicles_required_to_serve")) in at, "cost derives from the accumulated lower bounds",
+                   "the spawning cost does not depend on the total lower bound", loc=e.instr.line())
+    # connection arcs only along predecessors
+    o, e = flownet.role(ctx, "R1.arcs-along-predecessors", edges, "connection",
+                        "connection arcs are created only inside the loop over Network::predecessors of the head node")
+    if e is not None and fd is not None:
+        ctl = fd.slice(seed_blocks=[e.instr.bb])["atoms"]
+        others = [x for x in edges if x is not e and call(N("predecessors")) in fd.slice(seed_blocks=[x.instr.bb], control=True)["atoms"]
+                  and fd.cfg.dominates(e.instr.bb, x.instr.bb)]
+        src = fd.slice_operand_pure(e.add_edge, e.add_edge.args[1])["atoms"] if e.add_edge is not None else set()
+        ok = call(N("predecessors")) in ctl and e.add_edge is not None and call(N("predecessors")) in src
+        ctx.decide(o, ok, "add_edge(pred, node) is control dependent on, and fed by, the predecessors iterator",
+                   "the connection arc is not created from Network::predecessors", loc=e.instr.line())
+    # the three split-node arcs join the left and right copy of the same node
+    for r in ("trip", "maintenance", "depot"):
+        o, e = flownet.role(ctx, "R1.%s-arc-joins-node-copies" % r, edges, r, "the %s arc goes from the left to the right copy of one node" % r)
+        if e is not None and fd is not None:
+            ok = e.add_edge is not None
+            if ok:
+                a = direct_def_instr(fd, e.add_edge.args[1])
+                b = direct_def_instr(fd, e.add_edge.args[2])
+                ok = a is not None and b is not None and a is not b
+            ctx.decide(o, ok, "add_edge(left, right)", "add_edge operands are not two distinct node copies", loc=e.instr.line())
+    # R2: simplex mapping (shared with C02.R6)
+    from .C02 import flow_bounds
+    before = len(ctx.obligations)
+    flow_bounds(ctx)
+    ctx.obligations[before:] = [x for x in ctx.obligations[before:] if x.id.endswith("simplex-reads-bounds")]
+    for x in ctx.obligations[before:]:
+        x.id = x.id.replace("C14/R6.", "C14/R2.")
+    if fd is not None:
+        decoding(ctx, fd)
+    must_depend(ctx, "R4.solve-builds-schedule-from-flow", "T1", MCF + "::solve", "ret",
+                [call(SFVT), call(S("from_tours")), call(MCF + "::distribute_maintenance_slots")],
+                "the start schedule is built from the decoded tours of every vehicle type")
+    must_depend(ctx, "R4.from_tours-spawns", "T1", S("from_tours"), "ret", [call(S("spawn_vehicle_for_path")), call(S("empty")), "param:1"],
+                "Schedule::from_tours spawns one vehicle per decoded tour")
